@@ -491,3 +491,39 @@ func GenPowerLevels(version string) []Cell {
 	return out
 }
 
+
+// GenCaseVariants: member names inside event CONTENT that differ from the specified name only in letter case. JSON member
+// names are case sensitive: {"Membership":"join"} has no membership, {"Join_Rule":"public"} no join rule. One cell per
+// kind; Labels[0] names the kind.
+func GenCaseVariants(version string) []Cell {
+	S := "@s:a.org"
+	prev := []string{"$p" + strings.Repeat("x", 42)}
+	jr := func(content string) authgen.SE {
+		return authgen.SE{ID: "$jr" + strings.Repeat("j", 41), Type: "m.room.join_rules", StateKey: "", Sender: C, Content: content}
+	}
+	pl := func(content string) authgen.SE {
+		return authgen.SE{ID: "$pl" + strings.Repeat("p", 41), Type: "m.room.power_levels", StateKey: "", Sender: C, Content: content}
+	}
+	joinEv := func(content string) authgen.Ev {
+		return authgen.Ev{Type: "m.room.member", StateKey: evgen.S(S), Sender: S, Content: content, Prev: prev}
+	}
+	base := []authgen.SE{createSE(version, 0, ""), member(C, "join")}
+	with := func(extra ...authgen.SE) []authgen.SE { return append(append([]authgen.SE(nil), base...), extra...) }
+	kinds := []struct {
+		name string
+		sc   authgen.Scenario
+	}{
+		{"control:join-public", authgen.Scenario{Version: version, State: with(jr(`{"join_rule":"public"}`)), Event: joinEv(`{"membership":"join"}`)}},
+		{"membership", authgen.Scenario{Version: version, State: with(jr(`{"join_rule":"public"}`)), Event: joinEv(`{"Membership":"join"}`)}},
+		{"membership-upper", authgen.Scenario{Version: version, State: with(jr(`{"join_rule":"public"}`)), Event: joinEv(`{"MEMBERSHIP":"join"}`)}},
+		{"join_rule", authgen.Scenario{Version: version, State: with(jr(`{"Join_Rule":"public"}`)), Event: joinEv(`{"membership":"join"}`)}},
+		{"member-state-membership", authgen.Scenario{Version: version, State: with(jr(`{"join_rule":"invite"}`), authgen.SE{ID: "$ms" + strings.Repeat("m", 41), Type: "m.room.member", StateKey: S, Sender: C, Content: `{"Membership":"invite"}`}), Event: joinEv(`{"membership":"join"}`)}},
+		{"power-levels-ban", authgen.Scenario{Version: version, State: with(member(S, "join"), pl(`{"users":{"`+C+`":100},"Ban":0}`)), Event: authgen.Ev{Type: "m.room.member", StateKey: evgen.S("@t:a.org"), Sender: S, Content: `{"membership":"ban"}`, Prev: prev}}},
+		{"power-levels-users", authgen.Scenario{Version: version, State: with(member(S, "join"), pl(`{"Users":{"`+S+`":100},"users":{"`+C+`":100}}`)), Event: authgen.Ev{Type: "m.room.name", StateKey: evgen.S(""), Sender: S, Content: `{}`, Prev: prev}}},
+	}
+	var out []Cell
+	for i, k := range kinds {
+		out = append(out, Cell{"case-variant", []int{i}, []string{k.name}, k.sc})
+	}
+	return out
+}
